@@ -1,9 +1,14 @@
-import Generated.Funcs
-import SlimModel.Slim
-import SlimModel.Query
-import SlimModel.Encode
-import SlimModel.Spec
-import SlimModel.Bits
+import SlimProps.BridgeSem.Common
+import SlimProps.BridgeSem.Step
+import SlimProps.BridgeSem.Label
+import SlimProps.BridgeSem.GetInt
+import SlimProps.BridgeSem.EncSizes
+import SlimProps.BridgeSem.NormalizeOpt
+import SlimProps.BridgeSem.Offsets
+import SlimProps.BridgeSem.LeafIndex
+import SlimProps.BridgeSem.ToKeep
+import SlimProps.BridgeSem.StepToPos
+import SlimProps.BridgeSem.ShortSize
 /-
   SlimProps.BridgeSem — tie 1, semantic part: the small pure functions of the Go source, translated
   to Lean on every check run (lean/Generated/Funcs.lean, written by harness/cmd/extract/translate.go
@@ -28,999 +33,21 @@ import SlimModel.Bits
     `innerFrom_offset_sem` (offset arithmetic of the inner-node bitmaps), `getLeafIndex_sem`
   * `memIncrOfShortSize_sem` (= `Slim.memIncr`), `findMinShortSize_sem` (= `Slim.findMinShortSize`):
     nested slices of structs, a call between translated functions, `bits.OnesCount64`
+
+  One module per function family, so that a changed or untranslatable Go function breaks only the
+  module (and the properties) that rely on it; shared lemmas and tactics are in `Common`:
+
+    Step          encStep_sem, decStep_sem, decStep_encStep_iff
+    Label         getLabelIdxOfKey_sem
+    GetInt        getI8_sem getI16_sem getI32_sem getI64_sem, getI16_list getI32_list getI64_list,
+                  getI16Index_sem getI32Index_sem getI64Index_sem
+    EncSizes      encSizes_sem, encSizes_model
+    NormalizeOpt  normalizeOpt_sem
+    ToKeep        newToKeep_sem
+    StepToPos     stepToPos_sem
+    ShortSize     memIncrOfShortSize_sem, findMinShortSize_sem
+    Offsets       bigInnerOffset_sem, shortMinusInner_sem, innerFromBig_sem, innerFromSmall_sem,
+                  innerFrom_offset_sem
+    LeafIndex     getLeafIndex_sem
 -/
 
-open Generated
-
-namespace BridgeSem
-
-/-! ### normalisation -/
-
-theorem and_255 (x : Nat) : x &&& 255 = x % 256 := Nat.and_two_pow_sub_one_eq_mod x 8
-theorem and_15 (x : Nat) : x &&& 15 = x % 16 := Nat.and_two_pow_sub_one_eq_mod x 4
-theorem and_7 (x : Nat) : x &&& 7 = x % 8 := Nat.and_two_pow_sub_one_eq_mod x 3
-theorem and_255' (x : Nat) : 255 &&& x = x % 256 := by rw [Nat.and_comm]; exact and_255 x
-theorem and_15' (x : Nat) : 15 &&& x = x % 16 := by rw [Nat.and_comm]; exact and_15 x
-theorem and_7' (x : Nat) : 7 &&& x = x % 8 := by rw [Nat.and_comm]; exact and_7 x
-
-theorem byte_lt (b : UInt8) : b.toNat < 256 := UInt8.toNat_lt_size b
-
-/-! conditional rewrite rules: on operands that fit, the `Go.*` operations are plain arithmetic -/
-
-theorem toS_small {w p : Nat} (h : p < 2 ^ (w - 1)) : Go.toS w p = (p : Int) := by
-  unfold Go.toS; rw [if_pos h]
-
-theorem sar_small {w a : Nat} (k : Nat) (h : a < 2 ^ (w - 1)) : Go.sar w a k = a / 2 ^ k := by
-  unfold Go.sar; rw [if_pos h, Nat.shiftRight_eq_div_pow]
-
-theorem shr_eq (a k : Nat) : Go.shr a k = a / 2 ^ k := Nat.shiftRight_eq_div_pow a k
-
-theorem ltS_small {w a b : Nat} (ha : a < 2 ^ (w - 1)) (hb : b < 2 ^ (w - 1)) :
-    Go.ltS w a b = decide (a < b) := by
-  unfold Go.ltS; rw [toS_small ha, toS_small hb]; simp
-
-theorem leS_small {w a b : Nat} (ha : a < 2 ^ (w - 1)) (hb : b < 2 ^ (w - 1)) :
-    Go.leS w a b = decide (a ≤ b) := by
-  unfold Go.leS; rw [toS_small ha, toS_small hb]; simp
-
-theorem conv_narrow (fw : Nat) (fs : Bool) (tw x : Nat) (h : tw ≤ fw) :
-    Go.conv fw fs tw x = x % 2 ^ tw := by
-  unfold Go.conv Go.wrap; rw [if_pos h]
-
-theorem conv_widen_u (fw tw x : Nat) (h : fw < tw) : Go.conv fw false tw x = x := by
-  unfold Go.conv; rw [if_neg (by omega)]; simp
-
-theorem conv_widen_small (fw tw x : Nat) (h : fw < tw) (hx : x < 2 ^ (fw - 1)) :
-    Go.conv fw true tw x = x := by
-  unfold Go.conv; rw [if_neg (by omega)]
-  have : ¬ 2 ^ (fw - 1) ≤ x := by omega
-  simp [this]
-
-theorem add_small {w a b : Nat} (h : a + b < 2 ^ w) : Go.add w a b = a + b := by
-  unfold Go.add Go.wrap; exact Nat.mod_eq_of_lt h
-
-theorem mul_small {w a b : Nat} (h : a * b < 2 ^ w) : Go.mul w a b = a * b := by
-  unfold Go.mul Go.wrap; exact Nat.mod_eq_of_lt h
-
-theorem shl_small {w a k : Nat} (h : a * 2 ^ k < 2 ^ w) : Go.shl w a k = a * 2 ^ k := by
-  unfold Go.shl Go.wrap; rw [Nat.shiftLeft_eq]; exact Nat.mod_eq_of_lt h
-
-theorem and_eq (a b : Nat) : Go.and a b = a &&& b := rfl
-
-/-- rewrite the `Go.*` operations on operands that fit their type into plain arithmetic;
-    side conditions are discharged by `omega` from the hypotheses in scope -/
-syntax "go_simp" : tactic
-macro_rules
-  | `(tactic| go_simp) => `(tactic|
-      simp (disch := omega) only [sar_small, shr_eq, ltS_small, leS_small, conv_narrow, conv_widen_u,
-        conv_widen_small, add_small, mul_small, shl_small, toS_small, and_eq,
-        and_255, and_15, and_7, and_255', and_15', and_7',
-        List.getD_cons_zero, List.getD_cons_succ, List.getD_nil,
-        decide_eq_true_eq, beq_iff_eq, bne_iff_ne, ne_eq])
-
-/-! ### `encStep` / `decStep` (trie/slimtrie_create.go) -/
-
-/-- `encStep` of a step of `4 n` bits is the model's `encStep n` (both wrap at 2^16 half-bytes) -/
-theorem encStep_sem (n : Nat) (h : n < 2 ^ 29) :
-    Generated.encStep (4 * n) = (Slim.encStep n).map UInt8.toNat := by
-  unfold Generated.encStep Slim.encStep
-  simp only [List.map_cons, List.map_nil, UInt8.toNat_ofNat']
-  go_simp
-  congr 1
-  · omega
-  · congr 1; omega
-
-theorem or_mul (a b k : Nat) (h : b < 2 ^ k) : a * 2 ^ k ||| b = a * 2 ^ k + b := by
-  have := Nat.shiftLeft_add_eq_or_of_lt h a
-  rw [Nat.shiftLeft_eq] at this
-  exact this.symm
-
-theorem or_mul' (a b k : Nat) (h : b < 2 ^ k) : b ||| a * 2 ^ k = a * 2 ^ k + b := by
-  rw [Nat.or_comm]; exact or_mul a b k h
-
-set_option linter.unusedSimpArgs false in
-/-- two bytes `b0 b1` decode to `4 ×` the model's `decStep b0 b1` bits -/
-theorem decStep_sem (b0 b1 : UInt8) :
-    Generated.decStep [b0.toNat, b1.toNat] = ((4 * Slim.decStep b0 b1 : Nat) : Int) := by
-  have h0 := byte_lt b0
-  have h1 := byte_lt b1
-  unfold Generated.decStep Slim.decStep
-  go_simp
-  simp (disch := omega) only [Go.or, or_mul, or_mul']
-  go_simp
-  all_goals omega
-
-/-- round trip in bits: a step (a multiple of 4 bits, an `int32 ≥ 0`) survives
-    `decStep ∘ encStep` iff it is below 2^16 half-bytes -/
-theorem decStep_encStep_iff (s : Nat) (h4 : s % 4 = 0) (hs : s < 2 ^ 31) :
-    Generated.decStep (Generated.encStep s) = (s : Int) ↔ s / 4 < 2 ^ 16 := by
-  obtain ⟨n, rfl⟩ : ∃ n, s = 4 * n := ⟨s / 4, by omega⟩
-  rw [encStep_sem n (by omega)]
-  unfold Slim.encStep
-  simp only [List.map_cons, List.map_nil]
-  rw [decStep_sem]
-  unfold Slim.decStep
-  simp only [UInt8.toNat_ofNat']
-  constructor
-  · intro h
-    have : 4 * (n / 256 % 2 ^ 8 * 256 + n % 256 % 2 ^ 8) = 4 * n := by exact_mod_cast h
-    omega
-  · intro h
-    have : 4 * (n / 256 % 2 ^ 8 * 256 + n % 256 % 2 ^ 8) = 4 * n := by omega
-    exact_mod_cast this
-
-/-! ### `getLabelIdxOfKey` (trie/slimtrie_query.go) -/
-
-theorem nibs_getD (key : Bytes) (i : Nat) :
-    (nibs key).getD i 0 =
-      if i % 2 = 0 then (key.map UInt8.toNat).getD (i / 2) 0 / 16
-      else (key.map UInt8.toNat).getD (i / 2) 0 % 16 := by
-  induction key generalizing i with
-  | nil => simp [nibs]
-  | cons b bs ih =>
-    match i with
-    | 0 => simp [nibs]
-    | 1 => simp [nibs]
-    | i + 2 =>
-      have e1 : (i + 2) / 2 = i / 2 + 1 := by omega
-      have e2 : (i + 2) % 2 = i % 2 := by omega
-      simp only [nibs, List.getD_cons_succ, List.map_cons, e1, e2]
-      exact ih i
-
-theorem nibs_length' (key : Bytes) : (nibs key).length = 2 * key.length := by
-  induction key with
-  | nil => rfl
-  | cons b bs ih => simp only [nibs, List.length_cons, ih]; omega
-
-theorem getD_map_lt (key : Bytes) (j : Nat) : (key.map UInt8.toNat).getD j 0 < 256 := by
-  rw [List.getD_eq_getElem?_getD, List.getElem?_map]
-  cases key[j]? with
-  | none => simp
-  | some b => simpa using byte_lt b
-
-/-- the label index at bit position `4 i` of the Go code is the model's label index at half-byte
-    position `i`; `w` is the word size in bits (4, or 8 for big nodes — then `i` must be even:
-    8-bit words start at byte boundaries).  Bit positions fit an `int32`. -/
-theorem getLabelIdxOfKey_sem (key : Bytes) (i w : Nat) (hw : w = 4 ∨ w = 8)
-    (hlen : 8 * key.length < 2 ^ 31) (hi : 4 * i < 2 ^ 31) :
-    Generated.getLabelIdxOfKey (4 * i) (key.map UInt8.toNat) (8 * key.length) w
-      = ((labelIdxOfKey (nibs key) i (w == 8) : Nat) : Int) := by
-  have hb := getD_map_lt key (i / 2)
-  have hshift : 4 * i / 2 ^ 3 = i / 2 := by omega
-  unfold Generated.getLabelIdxOfKey labelIdxOfKey
-  rw [nibs_length']
-  simp only [nibs_getD]
-  rcases hw with rfl | rfl
-  · -- 4-bit words
-    go_simp
-    simp only [hshift]
-    generalize (key.map UInt8.toNat).getD (i / 2) 0 = x at hb ⊢
-    -- resolve every `if` of both sides; contradictory paths are closed by `omega`
-    repeat' split
-    all_goals first
-      | omega
-      | (go_simp <;> omega)
-      | (simp at * <;> omega)
-  · -- 8-bit words: the byte that contains the position
-    have e1 : (i - i % 2) / 2 = i / 2 := by omega
-    have e2 : (i - i % 2 + 1) / 2 = i / 2 := by omega
-    have e3 : (i - i % 2) % 2 = 0 := by omega
-    have e4 : ¬ (i - i % 2 + 1) % 2 = 0 := by omega
-    go_simp
-    simp only [hshift, e1, e2, e3, e4, if_true, if_false]
-    generalize (key.map UInt8.toNat).getD (i / 2) 0 = x at hb ⊢
-    repeat' split
-    all_goals first
-      | omega
-      | (go_simp <;> omega)
-      | (simp at * <;> omega)
-
-/-! ### `GetI8/16/32/64` (trie/slimtrie_getint.go) -/
-
-/-- a `w`-bit pattern read as a signed value is `leSigned` of the bytes it is made of -/
-theorem toS_eq_leSigned (bs : Bytes) (w p : Nat) (hw : w = 8 * bs.length) (hp : p = leVal bs) :
-    Go.toS w p = Slim.leSigned bs := by
-  subst hw hp
-  unfold Go.toS Slim.leSigned
-  simp only
-  all_goals (split <;> simp)
-
-theorem or_shl (a b k : Nat) (h : a < 2 ^ k) : a ||| b <<< k = a + 2 ^ k * b := by
-  rw [Nat.or_comm, ← Nat.shiftLeft_add_eq_or_of_lt h, Nat.shiftLeft_eq]
-  rw [Nat.mul_comm, Nat.add_comm]
-
-theorem leVal1 (b0 : UInt8) : leVal [b0] = b0.toNat := by simp [leVal]
-
-theorem leVal2_or (b0 b1 : UInt8) : leVal [b0, b1] = b0.toNat ||| b1.toNat <<< 8 := by
-  have := byte_lt b0
-  rw [or_shl _ _ _ (by omega)]
-  simp [leVal]
-
-theorem leVal4_or (b0 b1 b2 b3 : UInt8) :
-    leVal [b0, b1, b2, b3]
-      = b0.toNat ||| b1.toNat <<< 8 ||| b2.toNat <<< 16 ||| b3.toNat <<< 24 := by
-  have := byte_lt b0; have := byte_lt b1; have := byte_lt b2
-  rw [or_shl _ _ 8 (by omega), or_shl _ _ 16 (by omega), or_shl _ _ 24 (by omega)]
-  simp only [leVal]
-  omega
-
-theorem leVal8_or (b0 b1 b2 b3 b4 b5 b6 b7 : UInt8) :
-    leVal [b0, b1, b2, b3, b4, b5, b6, b7]
-      = b0.toNat ||| b1.toNat <<< 8 ||| b2.toNat <<< 16 ||| b3.toNat <<< 24 ||| b4.toNat <<< 32
-        ||| b5.toNat <<< 40 ||| b6.toNat <<< 48 ||| b7.toNat <<< 56 := by
-  have := byte_lt b0; have := byte_lt b1; have := byte_lt b2; have := byte_lt b3
-  have := byte_lt b4; have := byte_lt b5; have := byte_lt b6
-  rw [or_shl _ _ 8 (by omega), or_shl _ _ 16 (by omega), or_shl _ _ 24 (by omega),
-    or_shl _ _ 32 (by omega), or_shl _ _ 40 (by omega), or_shl _ _ 48 (by omega),
-    or_shl _ _ 56 (by omega)]
-  simp only [leVal]
-  omega
-
-/-- a shifted byte stays inside a wider word -/
-theorem shl_byte (w k : Nat) (b : UInt8) (hk : k + 8 ≤ w) :
-    Go.shl w b.toNat k = b.toNat <<< k := by
-  unfold Go.shl Go.wrap
-  apply Nat.mod_eq_of_lt
-  rw [Nat.shiftLeft_eq]
-  have := byte_lt b
-  calc b.toNat * 2 ^ k < 2 ^ 8 * 2 ^ k := Nat.mul_lt_mul_of_pos_right (by omega) (Nat.two_pow_pos k)
-    _ = 2 ^ (k + 8) := by rw [← Nat.pow_add, Nat.add_comm]
-    _ ≤ 2 ^ w := Nat.pow_le_pow_right (by omega) hk
-
-/-- unfold conversions of bytes, list accesses and in-range shifts; leaves a `|||` of shifted bytes -/
-syntax "bytes_simp" : tactic
-macro_rules
-  | `(tactic| bytes_simp) => `(tactic|
-      simp (disch := omega) only [Go.conv, Go.or, shl_byte, Go.wrap,
-        List.getD_cons_zero, List.getD_cons_succ,
-        Bool.false_and, Bool.false_eq_true, if_false, Nat.reduceLeDiff, Nat.reducePow,
-        Nat.shiftLeft_zero])
-
-theorem getI8_sem (bytes : Bytes) (ith : Nat) (h : ith < bytes.length) :
-    Generated.getI8 (bytes.map UInt8.toNat) ith = Slim.leSigned [bytes[ith]] := by
-  unfold Generated.getI8
-  refine toS_eq_leSigned [bytes[ith]] _ _ (by rfl) ?_
-  rw [leVal1, List.getD_eq_getElem?_getD, List.getElem?_map, List.getElem?_eq_getElem h]
-  have := byte_lt bytes[ith]
-  simp only [Go.conv, Go.wrap, Option.map_some, Option.getD_some, Nat.le_refl, if_true]
-  omega
-
-theorem getI16_sem (b0 b1 : UInt8) :
-    Generated.getI16 [b0.toNat, b1.toNat] = Slim.leSigned [b0, b1] := by
-  unfold Generated.getI16
-  refine toS_eq_leSigned [b0, b1] _ _ (by rfl) ?_
-  rw [leVal2_or]
-  bytes_simp
-  all_goals
-    generalize b0.toNat = x0; generalize b1.toNat <<< 8 = x1
-    ac_rfl
-
-theorem getI32_sem (b0 b1 b2 b3 : UInt8) :
-    Generated.getI32 [b0.toNat, b1.toNat, b2.toNat, b3.toNat] = Slim.leSigned [b0, b1, b2, b3] := by
-  unfold Generated.getI32
-  refine toS_eq_leSigned [b0, b1, b2, b3] _ _ (by rfl) ?_
-  rw [leVal4_or]
-  bytes_simp
-  all_goals
-    generalize b0.toNat = x0; generalize b1.toNat <<< 8 = x1; generalize b2.toNat <<< 16 = x2
-    generalize b3.toNat <<< 24 = x3
-    ac_rfl
-
-theorem getI64_sem (b0 b1 b2 b3 b4 b5 b6 b7 : UInt8) :
-    Generated.getI64 [b0.toNat, b1.toNat, b2.toNat, b3.toNat, b4.toNat, b5.toNat, b6.toNat, b7.toNat]
-      = Slim.leSigned [b0, b1, b2, b3, b4, b5, b6, b7] := by
-  unfold Generated.getI64
-  refine toS_eq_leSigned [b0, b1, b2, b3, b4, b5, b6, b7] _ _ (by rfl) ?_
-  rw [leVal8_or]
-  bytes_simp
-  all_goals
-    generalize b0.toNat = x0; generalize b1.toNat <<< 8 = x1; generalize b2.toNat <<< 16 = x2
-    generalize b3.toNat <<< 24 = x3; generalize b4.toNat <<< 32 = x4; generalize b5.toNat <<< 40 = x5
-    generalize b6.toNat <<< 48 = x6; generalize b7.toNat <<< 56 = x7
-    ac_rfl
-
-/-- for any slice of the right length -/
-theorem getI16_list (bs : Bytes) (h : bs.length = 2) :
-    Generated.getI16 (bs.map UInt8.toNat) = Slim.leSigned bs := by
-  match bs, h with
-  | [b0, b1], _ => exact getI16_sem b0 b1
-
-theorem getI32_list (bs : Bytes) (h : bs.length = 4) :
-    Generated.getI32 (bs.map UInt8.toNat) = Slim.leSigned bs := by
-  match bs, h with
-  | [b0, b1, b2, b3], _ => exact getI32_sem b0 b1 b2 b3
-
-theorem getI64_list (bs : Bytes) (h : bs.length = 8) :
-    Generated.getI64 (bs.map UInt8.toNat) = Slim.leSigned bs := by
-  match bs, h with
-  | [b0, b1, b2, b3, b4, b5, b6, b7], _ => exact getI64_sem b0 b1 b2 b3 b4 b5 b6 b7
-
-/-- the slice start: leaf ordinal × width in bytes (ordinals fit an `int32`) -/
-theorem getI16Index_sem (ith : Nat) (h : ith < 2 ^ 30) :
-    Generated.getI16Index ith = ((ith * 2 : Nat) : Int) := by
-  unfold Generated.getI16Index
-  go_simp
-  all_goals omega
-
-theorem getI32Index_sem (ith : Nat) (h : ith < 2 ^ 29) :
-    Generated.getI32Index ith = ((ith * 4 : Nat) : Int) := by
-  unfold Generated.getI32Index
-  go_simp
-  all_goals omega
-
-theorem getI64Index_sem (ith : Nat) (h : ith < 2 ^ 28) :
-    Generated.getI64Index ith = ((ith * 8 : Nat) : Int) := by
-  unfold Generated.getI64Index
-  go_simp
-  all_goals omega
-
-/-! ### package encode: `GetSize` / `GetEncodedSize` of the fixed-width integer encoders -/
-
-/-- the size literals of encode/int.go, encode/int8.go -/
-theorem encSizes_sem :
-    [Generated.encSizeI8, Generated.encEncodedSizeI8, Generated.encSizeI16, Generated.encEncodedSizeI16,
-     Generated.encSizeI32, Generated.encEncodedSizeI32, Generated.encSizeI64, Generated.encEncodedSizeI64,
-     Generated.encSizeU16, Generated.encEncodedSizeU16, Generated.encSizeU32, Generated.encEncodedSizeU32,
-     Generated.encSizeU64, Generated.encEncodedSizeU64]
-      = [1, 1, 2, 2, 4, 4, 8, 8, 2, 2, 4, 4, 8, 8] := by decide
-
-/-- … are the sizes of the model's codecs (SlimModel/Encode.lean) -/
-theorem encSizes_model (v : Int) (n : Nat) (b : Bytes) :
-    Encode.I8.getSize v = .ok Generated.encSizeI8.toNat ∧
-    Encode.I8.getEncodedSize b = .ok Generated.encEncodedSizeI8.toNat ∧
-    Encode.I16.getSize v = .ok Generated.encSizeI16.toNat ∧
-    Encode.I16.getEncodedSize b = .ok Generated.encEncodedSizeI16.toNat ∧
-    Encode.I32.getSize v = .ok Generated.encSizeI32.toNat ∧
-    Encode.I32.getEncodedSize b = .ok Generated.encEncodedSizeI32.toNat ∧
-    Encode.I64.getSize v = .ok Generated.encSizeI64.toNat ∧
-    Encode.I64.getEncodedSize b = .ok Generated.encEncodedSizeI64.toNat ∧
-    Encode.U16.getSize n = .ok Generated.encSizeU16.toNat ∧
-    Encode.U16.getEncodedSize b = .ok Generated.encEncodedSizeU16.toNat ∧
-    Encode.U32.getSize n = .ok Generated.encSizeU32.toNat ∧
-    Encode.U32.getEncodedSize b = .ok Generated.encEncodedSizeU32.toNat ∧
-    Encode.U64.getSize n = .ok Generated.encSizeU64.toNat ∧
-    Encode.U64.getEncodedSize b = .ok Generated.encEncodedSizeU64.toNat := by
-  have h := encSizes_sem
-  simp only [List.cons.injEq, and_true] at h
-  obtain ⟨h1, h2, h3, h4, h5, h6, h7, h8, h9, h10, h11, h12, h13, h14⟩ := h
-  rw [h1, h2, h3, h4, h5, h6, h7, h8, h9, h10, h11, h12, h13, h14]
-  exact ⟨rfl, rfl, rfl, rfl, rfl, rfl, rfl, rfl, rfl, rfl, rfl, rfl, rfl, rfl⟩
-
-/-! ### `normalizeOpt` (trie/slimtrie.go): the decision logic of the options -/
-
-/-- nil pointers take their defaults and `Complete == true` forces both prefixes: the generated
-    decision logic is `Opt.normalize` (SlimModel/Spec.lean), for all 81 combinations of
-    nil / false / true; `Complete` itself is left as it was. -/
-theorem normalizeOpt_sem (d i l c : Option Bool) :
-    Generated.normalizeOpt d i l c =
-      (some (Opt.normalize d i l c).dedup, some (Opt.normalize d i l c).inner,
-       some (Opt.normalize d i l c).leaf, c) := by
-  rcases d with _ | _ | _ <;> rcases i with _ | _ | _ <;> rcases l with _ | _ | _ <;>
-    rcases c with _ | _ | _ <;> rfl
-
-/-! ### offset arithmetic of the inner-node bitmaps (slimtrie_vars.go, slimtrie_getnode.go) -/
-
-theorem ofS_natCast {w n : Nat} (h : n < 2 ^ w) : Go.ofS w (n : Int) = n := by
-  unfold Go.ofS
-  have : ((n : Int) % (2 : Int) ^ w) = (n : Int) := by
-    apply Int.emod_eq_of_lt (by omega)
-    exact_mod_cast h
-  rw [this]; simp
-
-theorem ofS_lt (w : Nat) (x : Int) : Go.ofS w x < 2 ^ w := by
-  unfold Go.ofS
-  have hpos : (0 : Int) < (2 : Int) ^ w := Int.pow_pos (by decide)
-  have h1 := Int.emod_lt_of_pos x hpos
-  have h0 := Int.emod_nonneg x (Int.ne_of_gt hpos)
-  have : ((x % (2 : Int) ^ w).toNat : Int) < ((2 ^ w : Nat) : Int) := by
-    rw [Int.toNat_of_nonneg h0]; simpa using h1
-  exact Int.ofNat_lt.mp this
-
-theorem ofS_cast (w : Nat) (x : Int) : ((Go.ofS w x : Nat) : Int) = x % (2 : Int) ^ w := by
-  unfold Go.ofS
-  have hpos : (0 : Int) < (2 : Int) ^ w := Int.pow_pos (by decide)
-  exact Int.toNat_of_nonneg (Int.emod_nonneg x (Int.ne_of_gt hpos))
-
-/-- a pattern is determined by its residue -/
-theorem eq_ofS {w p : Nat} {x : Int} (hp : p < 2 ^ w) (h : (p : Int) % (2 : Int) ^ w = x % (2 : Int) ^ w) :
-    p = Go.ofS w x := by
-  have h1 : ((p : Nat) : Int) = ((Go.ofS w x : Nat) : Int) := by
-    rw [ofS_cast, ← h]
-    symm
-    apply Int.emod_eq_of_lt (by omega)
-    exact_mod_cast hp
-  exact_mod_cast h1
-
-/-- wrap-around addition and multiplication compute in the ring of residues: intermediate
-    overflow is harmless -/
-theorem add_ofS (w : Nat) (a b : Int) : Go.add w (Go.ofS w a) (Go.ofS w b) = Go.ofS w (a + b) := by
-  apply eq_ofS
-  · exact Nat.mod_lt _ (Nat.two_pow_pos w)
-  · unfold Go.add Go.wrap
-    rw [Int.natCast_emod, Int.natCast_add, ofS_cast, ofS_cast]
-    simp only [Int.natCast_pow, Int.cast_ofNat_Int]
-    rw [Int.emod_emod_of_dvd _ (Int.dvd_refl _), ← Int.add_emod]
-
-theorem mul_ofS (w : Nat) (a b : Int) : Go.mul w (Go.ofS w a) (Go.ofS w b) = Go.ofS w (a * b) := by
-  apply eq_ofS
-  · exact Nat.mod_lt _ (Nat.two_pow_pos w)
-  · unfold Go.mul Go.wrap
-    rw [Int.natCast_emod, Int.natCast_mul, ofS_cast, ofS_cast]
-    simp only [Int.natCast_pow, Int.cast_ofNat_Int]
-    rw [Int.emod_emod_of_dvd _ (Int.dvd_refl _), ← Int.mul_emod]
-
-theorem sub_ofS (w : Nat) (a b : Int) : Go.sub w (Go.ofS w a) (Go.ofS w b) = Go.ofS w (a - b) := by
-  apply eq_ofS
-  · exact Nat.mod_lt _ (Nat.two_pow_pos w)
-  · unfold Go.sub Go.wrap
-    have hb := ofS_lt w b
-    rw [Nat.mod_eq_of_lt hb, Int.natCast_emod, Int.natCast_add, Int.natCast_sub (Nat.le_of_lt hb),
-      ofS_cast, ofS_cast]
-    simp only [Int.natCast_pow, Int.cast_ofNat_Int]
-    rw [Int.emod_emod_of_dvd _ (Int.dvd_refl _)]
-    have : a % 2 ^ w + (2 ^ w - b % 2 ^ w) = (a % 2 ^ w - b % 2 ^ w) + 2 ^ w := by omega
-    rw [this, Int.add_emod_right, ← Int.sub_emod]
-
-/-- a value in the signed range is read back from its pattern -/
-theorem toS_ofS {w : Nat} (hw : 0 < w) {x : Int} (hlo : -(2 : Int) ^ (w - 1) ≤ x)
-    (hhi : x < (2 : Int) ^ (w - 1)) : Go.toS w (Go.ofS w x) = x := by
-  have hsplit : (2 : Int) ^ w = 2 * (2 : Int) ^ (w - 1) := by
-    have : w = (w - 1) + 1 := by omega
-    rw [this, Int.pow_succ]; simp; omega
-  have hHpos : (0 : Int) < (2 : Int) ^ (w - 1) := Int.pow_pos (by decide)
-  have hcast : (((2 : Nat) ^ (w - 1) : Nat) : Int) = (2 : Int) ^ (w - 1) := by simp
-  unfold Go.toS
-  by_cases hneg : 0 ≤ x
-  · have hm : x % (2 : Int) ^ w = x := Int.emod_eq_of_lt hneg (by omega)
-    have hc := ofS_cast w x
-    rw [hm] at hc
-    have : Go.ofS w x < 2 ^ (w - 1) := by
-      apply Int.ofNat_lt.mp
-      rw [hcast, hc]; exact hhi
-    rw [if_pos this, hc]
-  · have hm : x % (2 : Int) ^ w = x + (2 : Int) ^ w := by
-      rw [← Int.add_emod_right x ((2 : Int) ^ w)]
-      exact Int.emod_eq_of_lt (by omega) (by omega)
-    have hc := ofS_cast w x
-    rw [hm] at hc
-    have : ¬ Go.ofS w x < 2 ^ (w - 1) := by
-      intro hlt
-      have := Int.ofNat_lt.mpr hlt
-      rw [hcast, hc] at this
-      omega
-    rw [if_neg this, hc]; omega
-
-/-- `BigInnerOffset = (bigInnerSize - innerSize) * BigInnerCnt` (no overflow: the count fits) -/
-theorem bigInnerOffset_sem (cnt : Nat) (h : 240 * cnt < 2 ^ 31) :
-    Generated.bigInnerOffset cnt = ((Slim.bigInnerSize : Int) - Slim.innerSize) * cnt := by
-  unfold Generated.bigInnerOffset
-  go_simp
-  simp only [Slim.bigInnerSize, Slim.innerSize]
-  omega
-
-/-- `ShortMinusInner = ShortSize - innerSize` (negative for every real short size) -/
-theorem shortMinusInner_sem (ss : Nat) (h : ss < 2 ^ 31) :
-    Generated.shortMinusInner ss = (ss : Int) - Slim.innerSize := by
-  unfold Generated.shortMinusInner
-  conv => lhs; rw [← ofS_natCast (w := 32) (n := ss) (by omega),
-    ← ofS_natCast (w := 32) (n := 17) (by omega)]
-  rw [sub_ofS, toS_ofS (by omega)]
-  · simp [Slim.innerSize]
-  · simp only [Nat.add_one_sub_one]; omega
-  · simp only [Nat.add_one_sub_one]; omega
-
-theorem innerFromBig_sem (ith : Nat) (h : ith * 257 < 2 ^ 31) :
-    Generated.innerFromBig ith = ((ith * Slim.bigInnerSize : Nat) : Int) ∧
-    Generated.getNodeFromBig ith = ((ith * Slim.bigInnerSize : Nat) : Int) := by
-  unfold Generated.innerFromBig Generated.getNodeFromBig
-  go_simp
-  simp [Slim.bigInnerSize]
-
-/-- `from = BigInnerOffset + innerSize*ithInner + ShortMinusInner*ithShort` on int32 values
-    `bo`, `sm` (given by their patterns `Go.ofS 32 _`): whenever the RESULT fits an int32 it is the
-    integer the model computes — intermediate wrap-around does not matter. -/
-theorem innerFromSmall_sem (ith ithShort : Nat) (bo sm : Int) (hi : ith < 2 ^ 32) (hs : ithShort < 2 ^ 32)
-    (hlo : -(2 : Int) ^ 31 ≤ bo + 17 * ith + sm * ithShort)
-    (hhi : bo + 17 * ith + sm * ithShort < (2 : Int) ^ 31) :
-    Generated.innerFromSmall ith (Go.ofS 32 bo) (Go.ofS 32 sm) ithShort
-      = bo + (Slim.innerSize : Int) * ith + sm * ithShort ∧
-    Generated.getNodeFromSmall ith (Go.ofS 32 bo) (Go.ofS 32 sm) ithShort
-      = bo + (Slim.innerSize : Int) * ith + sm * ithShort := by
-  have hinner : (Slim.innerSize : Int) = 17 := rfl
-  unfold Generated.innerFromSmall Generated.getNodeFromSmall
-  constructor <;>
-  · conv => lhs; rw [← ofS_natCast (w := 32) (n := ith) hi, ← ofS_natCast (w := 32) (n := ithShort) hs,
-      ← ofS_natCast (w := 32) (n := 17) (by omega)]
-    simp only [mul_ofS, add_ofS]
-    rw [toS_ofS (by omega) (by simp only [Nat.add_one_sub_one]; omega)
-      (by simp only [Nat.add_one_sub_one]; omega), hinner]
-    omega
-
-/-- the composition the model uses (`Slim.innerFrom`, `Slim.ithInnerFrom`): with the fields set
-    by `initVars`, `from` is the model's `Int` expression whenever everything fits an int32 -/
-theorem innerFrom_offset_sem (cnt ss ith ithShort : Nat) (hc : 240 * cnt < 2 ^ 31) (hss : ss < 2 ^ 31)
-    (hi : ith < 2 ^ 32) (hs : ithShort < 2 ^ 32)
-    (hlo : -(2 : Int) ^ 31 ≤ ((Slim.bigInnerSize : Int) - Slim.innerSize) * cnt + (Slim.innerSize : Int) * ith
-      + ((ss : Int) - Slim.innerSize) * ithShort)
-    (hhi : ((Slim.bigInnerSize : Int) - Slim.innerSize) * cnt + (Slim.innerSize : Int) * ith
-      + ((ss : Int) - Slim.innerSize) * ithShort < (2 : Int) ^ 31) :
-    Generated.innerFromSmall ith (Go.ofS 32 (Generated.bigInnerOffset cnt))
-        (Go.ofS 32 (Generated.shortMinusInner ss)) ithShort
-      = ((Slim.bigInnerSize : Int) - Slim.innerSize) * cnt + (Slim.innerSize : Int) * ith
-        + ((ss : Int) - Slim.innerSize) * ithShort := by
-  rw [bigInnerOffset_sem cnt hc, shortMinusInner_sem ss hss]
-  have hinner : (Slim.innerSize : Int) = 17 := rfl
-  exact (innerFromSmall_sem ith ithShort _ _ hi hs (by rw [← hinner]; exact hlo)
-    (by rw [← hinner]; exact hhi)).1
-
-/-- `getLeafIndex`: leaf ordinal = node id − number of inner nodes before it -/
-theorem getLeafIndex_sem (nodeid r : Nat) (hr : r ≤ nodeid) (hn : nodeid < 2 ^ 31) :
-    Generated.getLeafIndex nodeid r = ((nodeid - r : Nat) : Int) := by
-  unfold Generated.getLeafIndex
-  conv => lhs; rw [← ofS_natCast (w := 32) (n := nodeid) (by omega),
-    ← ofS_natCast (w := 32) (n := r) (by omega)]
-  rw [sub_ofS, toS_ofS (by omega)]
-  · omega
-  · simp only [Nat.add_one_sub_one]; omega
-  · simp only [Nat.add_one_sub_one]; omega
-
-/-! ### `newToKeep` (trie/slimtrie_create.go): loops over a `[]bool`, `bytes.Compare(a, b) != 0` -/
-
-theorem sub_small {w a b : Nat} (hb : b ≤ a) (ha : a < 2 ^ w) : Go.sub w a b = a - b := by
-  unfold Go.sub Go.wrap
-  have hb' : b < 2 ^ w := by omega
-  rw [Nat.mod_eq_of_lt hb']
-  have : a + (2 ^ w - b) = (a - b) + 2 ^ w := by omega
-  rw [this, Nat.add_mod_right, Nat.mod_eq_of_lt (by omega)]
-
-theorem take_succ_set {α : Type} (l : List α) (i : Nat) (a : α) (h : i < l.length) :
-    (l.set i a).take (i + 1) = l.take i ++ [a] := by
-  rw [List.take_add_one, List.take_set_of_le (Nat.le_refl i), List.getElem?_set_self h]
-  rfl
-
-/-- the values as the translator sees them -/
-def natVals (vs : List Bytes) : List (List Nat) := vs.map (fun b => b.map UInt8.toNat)
-
-theorem natVals_getD (vs : List Bytes) (j : Nat) :
-    (natVals vs).getD j [] = (vs.getD j []).map UInt8.toNat := by
-  unfold natVals
-  rw [List.getD_eq_getElem?_getD, List.getD_eq_getElem?_getD, List.getElem?_map]
-  cases vs[j]? <;> rfl
-
-theorem bne_map (a b : Bytes) : (a.map UInt8.toNat != b.map UInt8.toNat) = (a != b) := by
-  rw [Bool.eq_iff_iff, bne_iff_ne, bne_iff_ne, Ne, Ne,
-    List.map_inj_right (fun x y h => UInt8.toNat_inj.mp h)]
-
-theorem loop2_spec (n : Nat) (hn : n < 2 ^ 63) :
-    ∀ fuel i (tk : List Bool), i ≤ n → n - i ≤ fuel → tk.length = n →
-      (Generated.newToKeep_loop2 n fuel (i, tk)).2 = tk.take i ++ List.replicate (n - i) true := by
-  intro fuel
-  induction fuel with
-  | zero =>
-    intro i tk h1 h2 h3
-    have : i = n := by omega
-    subst this
-    simp [Generated.newToKeep_loop2, ← h3]
-  | succ fuel ih =>
-    intro i tk h1 h2 h3
-    rw [Generated.newToKeep_loop2]
-    go_simp
-    by_cases hlt : i < n
-    · simp only [hlt, if_true]
-      rw [ih (i + 1) _ (by omega) (by omega) (by simp [h3]), take_succ_set _ _ _ (by omega)]
-      have : n - i = (n - (i + 1)) + 1 := by omega
-      rw [this, List.replicate_succ]
-      simp
-    · have : i = n := by omega
-      subst this
-      simp [← h3]
-
-/-- what the de-duplicating loop writes at position `j ≥ 1` -/
-def keepAt (vs : List Bytes) (j : Nat) : Bool := vs.getD (j - 1) [] != vs.getD j []
-
-theorem loop1_spec (vs : List Bytes) (hn : vs.length < 2 ^ 63) :
-    ∀ fuel i (tk : List Bool), 1 ≤ i → i ≤ vs.length → vs.length - i ≤ fuel → tk.length = vs.length →
-      (Generated.newToKeep_loop1 vs.length (some (natVals vs)) fuel (i, tk)).2
-        = tk.take i ++ (List.range' i (vs.length - i)).map (keepAt vs) := by
-  intro fuel
-  induction fuel with
-  | zero =>
-    intro i tk h0 h1 h2 h3
-    have : i = vs.length := by omega
-    subst this
-    simp [Generated.newToKeep_loop1, ← h3]
-  | succ fuel ih =>
-    intro i tk h0 h1 h2 h3
-    rw [Generated.newToKeep_loop1]
-    go_simp
-    by_cases hlt : i < vs.length
-    · simp only [hlt, if_true, Option.getD_some]
-      rw [ih (i + 1) _ (by omega) (by omega) (by omega) (by simp [h3]), take_succ_set _ _ _ (by omega)]
-      have : vs.length - i = (vs.length - (i + 1)) + 1 := by omega
-      rw [this, List.range'_succ]
-      simp only [List.map_cons, List.append_assoc, List.cons_append, List.nil_append,
-        List.append_cancel_left_eq, List.cons.injEq, and_true]
-      -- what the Go code writes at position i is `keepAt vs i`, however the comparison is phrased
-      unfold keepAt
-      rw [Bool.eq_iff_iff]
-      simp only [sub_small h0 (show i < 2 ^ 64 by omega), natVals_getD, bne_iff_ne, beq_iff_eq, ne_eq,
-        Bool.not_eq_true', beq_eq_false_iff_ne, Bool.not_eq_eq_eq_not, Bool.not_true,
-        List.map_inj_right (fun x y h => UInt8.toNat_inj.mp h)]
-      all_goals first
-        | exact Iff.rfl
-        | exact ⟨fun h e => h e.symm, fun h e => h e.symm⟩
-    · have : i = vs.length := by omega
-      subst this
-      simp [← h3]
-
-theorem keepMaskVals_drop (vs : List Bytes) :
-    ∀ d i, 1 ≤ i → i + d = vs.length →
-      keepMaskVals (some (vs.getD (i - 1) [])) (vs.drop i) = (List.range' i d).map (keepAt vs) := by
-  intro d
-  induction d with
-  | zero =>
-    intro i _ h2
-    rw [List.drop_of_length_le (by omega)]
-    rfl
-  | succ d ih =>
-    intro i h1 h2
-    rw [List.drop_eq_getElem_cons (by omega), keepMaskVals, List.range'_succ, List.map_cons]
-    have hget : vs.getD i [] = vs[i]'(by omega) := by
-      rw [List.getD_eq_getElem?_getD, List.getElem?_eq_getElem (by omega)]; rfl
-    have := ih (i + 1) (by omega) (by omega)
-    simp only [Nat.add_sub_cancel] at this
-    rw [← hget, this]
-    rfl
-
-/-- **`newToKeep`** (trie/slimtrie_create.go) is `keepMask` (SlimModel/Spec.lean): for every number
-    of records `n` (an `int`), values (nil, or as many as records) and `*opt.DedupValue`. -/
-theorem newToKeep_sem (n : Nat) (vals : Option (List Bytes)) (dedup : Bool) (hn : n < 2 ^ 63)
-    (hv : ∀ vs, vals = some vs → vs.length = n) :
-    Generated.newToKeep n (vals.map natVals) (some dedup) = keepMask n vals dedup := by
-  unfold Generated.newToKeep keepMask
-  have hall : (Generated.newToKeep_loop2 n n (0, List.replicate n false)).2 = List.replicate n true := by
-    rw [loop2_spec n hn n 0 _ (by omega) (by omega) (by simp)]
-    simp
-  cases vals with
-  | none =>
-    simp only [Option.map_none, Option.isSome_none, Bool.and_false, Bool.false_eq_true, if_false]
-    exact hall
-  | some vs =>
-    have hlen := hv vs rfl
-    cases dedup with
-    | false =>
-      simp only [Option.getD_some, Bool.false_and, Bool.false_eq_true, if_false]
-      exact hall
-    | true =>
-      simp only [Option.map_some, Option.getD_some, Option.isSome_some, Bool.and_self, if_true]
-      subst hlen
-      cases vs with
-      | nil => rfl
-      | cons v rest =>
-        show (Generated.newToKeep_loop1 (v :: rest).length (some (natVals (v :: rest))) (v :: rest).length
-          (1, (List.replicate (v :: rest).length false).set 0 true)).2 = _
-        rw [loop1_spec (v :: rest) hn _ 1 _ (by omega) (by simp) (by omega) (by simp)]
-        have := keepMaskVals_drop (v :: rest) rest.length 1 (by omega) (by simp; omega)
-        simp only [Nat.sub_self, List.getD_cons_zero, List.drop_succ_cons, List.drop_zero] at this
-        rw [keepMaskVals, this]
-        simp [List.replicate_succ]
-
-/-! ### `stepToPos` -/
-
-/-- the positions before each step, starting at `p` -/
-def prePos : List Nat → Nat → List Nat
-  | [], _ => []
-  | s :: ss, p => p :: prePos ss (p + s)
-
-theorem stepToPos_go_eq (ss : List Nat) (p : Nat) :
-    Slim.stepToPos.go ss p = prePos ss p ++ [p + ss.sum] := by
-  induction ss generalizing p with
-  | nil => simp [Slim.stepToPos.go, prePos]
-  | cons s ss ih =>
-    simp only [Slim.stepToPos.go, prePos, ih, List.sum_cons, List.cons_append]
-    rw [Nat.add_assoc]
-
-theorem prePos_length (ss : List Nat) (p : Nat) : (prePos ss p).length = ss.length := by
-  induction ss generalizing p with
-  | nil => rfl
-  | cons s ss ih => simp [prePos, ih]
-
-theorem sum_drop_le (l : List Nat) (i : Nat) : (l.drop i).sum ≤ l.sum := by
-  conv => rhs; rw [← List.take_append_drop i l, List.sum_append]
-  omega
-
-theorem stepLoop_spec (steps : List Nat) (hlen : steps.length + 1 < 2 ^ 31) (hsum : steps.sum < 2 ^ 31) :
-    ∀ fuel i p (ps : List Nat), i ≤ steps.length → steps.length - i ≤ fuel →
-      ps.length = steps.length + 1 → p + (steps.drop i).sum ≤ steps.sum →
-      Generated.stepToPos_loop1 steps.length 0 steps fuel (i, p, ps)
-        = (steps.length, p + (steps.drop i).sum,
-            ps.take i ++ prePos (steps.drop i) p ++ ps.drop steps.length) := by
-  intro fuel
-  induction fuel with
-  | zero =>
-    intro i p ps h1 h2 h3 _
-    have : i = steps.length := by omega
-    subst this
-    simp [Generated.stepToPos_loop1, prePos]
-  | succ fuel ih =>
-    intro i p ps h1 h2 h3 h4
-    rw [Generated.stepToPos_loop1]
-    by_cases hlt : i < steps.length
-    · have hdrop : steps.drop i = steps[i] :: steps.drop (i + 1) := List.drop_eq_getElem_cons hlt
-      have hget : steps.getD i 0 = steps[i] := by
-        rw [List.getD_eq_getElem?_getD, List.getElem?_eq_getElem hlt]; rfl
-      rw [hdrop, List.sum_cons] at h4
-      have hs := sum_drop_le steps (i + 1)
-      go_simp
-      simp only [hlt, if_true, hget, Nat.pow_zero, Nat.div_one]
-      try go_simp
-      rw [ih (i + 1) _ _ (by omega) (by omega) (by simp [h3]) (by omega), hdrop]
-      simp only [List.sum_cons, prePos, Prod.mk.injEq, true_and]
-      refine ⟨by omega, ?_⟩
-      rw [take_succ_set _ _ _ (by omega), List.drop_set_of_lt (by omega)]
-      simp
-    · have : i = steps.length := by omega
-      subst this
-      go_simp
-      simp [prePos]
-
-/-- **`stepToPos(steps, 0)`** (the only call shape) is the model's `Slim.stepToPos`: for steps that
-    are non-negative int32 values whose total fits an int32 (as does the number of positions). -/
-theorem stepToPos_sem (steps : List Nat) (hlen : steps.length + 1 < 2 ^ 31) (hsum : steps.sum < 2 ^ 31) :
-    Generated.stepToPos steps 0 = Slim.stepToPos steps := by
-  unfold Generated.stepToPos Slim.stepToPos
-  go_simp
-  have hn : steps.length % 2 ^ 32 = steps.length := by omega
-  simp only [hn]
-  rw [stepLoop_spec steps hlen hsum steps.length 0 0 _ (by omega) (by omega) (by simp) (by simp)]
-  simp only [List.drop_zero, List.take_zero, List.nil_append, Nat.zero_add]
-  rw [stepToPos_go_eq, Nat.zero_add]
-  have hl := prePos_length steps 0
-  rw [List.set_eq_take_append_cons_drop]
-  simp [hl]
-
-/-! ### `memIncrOfShortSize` / `findMinShortSize` (trie/slimtrie_create.go): the choice of `ShortSize` -/
-
-/-- the counter table as the translator sees it -/
-def natSorted (sorted : Array (List (Nat × Nat))) : List (List (Nat × Nat)) := sorted.toList
-
-/-- the counts and list lengths are non-negative int32 values -/
-def SortedOK (sorted : Array (List (Nat × Nat))) : Prop :=
-  ∀ l ∈ sorted.toList, l.length < 2 ^ 31 ∧ ∀ e ∈ l, e.2 < 2 ^ 31
-
-theorem popcount64_eq (x : Nat) : Go.popcount64 x = Bits.popcount x := rfl
-
-theorem popcount_le (x : Nat) : Bits.popcount x ≤ 64 := by
-  unfold Bits.popcount
-  have := List.length_filter_le (fun i => x.testBit i) (List.range 64)
-  simpa using this
-
-theorem array_getD_toList {α : Type} (a : Array α) (i : Nat) (d : α) :
-    a.toList.getD i d = a.getD i d := by
-  rw [List.getD_eq_getElem?_getD, Array.getD_eq_getD_getElem?, Array.getElem?_toList]
-
-theorem ofS_eq_natCast {w n : Nat} (h : n < 2 ^ w) : n = Go.ofS w (n : Int) := (ofS_natCast h).symm
-
-theorem memLoop_spec (sorted : Array (List (Nat × Nat))) (hok : SortedOK sorted) (ss : Nat) (hss : ss ≤ 30) :
-    ∀ fuel k short (ith : Array Nat) (mem : Int) (sc : Nat),
-      short + k = 2 ^ ss → k ≤ fuel → (∀ j, ith.getD j 0 ≤ short) →
-      (Generated.memIncrOfShortSize_loop1 ss (natSorted sorted) fuel
-          (Go.ofS 32 mem, ith.toList, short, sc)).1
-        = Go.ofS 32 (Slim.memIncr.go sorted ss k short ith mem) := by
-  have h2 : 2 ^ ss ≤ 2 ^ 30 := Nat.pow_le_pow_right (by omega) hss
-  intro fuel
-  induction fuel with
-  | zero =>
-    intro k short ith mem sc h1 hk _
-    have : k = 0 := by omega
-    subst this
-    simp [Generated.memIncrOfShortSize_loop1, Slim.memIncr.go]
-  | succ fuel ih =>
-    intro k short ith mem sc h1 hk hith
-    rw [Generated.memIncrOfShortSize_loop1]
-    have hshl : Go.shl 32 1 (Go.conv 32 true 64 ss) = 2 ^ ss := by
-      go_simp
-      simp
-    rw [hshl]
-    cases k with
-    | zero =>
-      have : ¬ short < 2 ^ ss := by omega
-      rw [ltS_small (by omega) (by omega)]
-      simp [this, Slim.memIncr.go]
-    | succ k =>
-      have hlt : short < 2 ^ ss := by omega
-      have hpc := popcount_le short
-      have hnbit : Go.conv 64 true 32 (Go.popcount64 (Go.conv 32 true 64 short)) = Bits.popcount short := by
-        rw [popcount64_eq]
-        go_simp
-        omega
-      rw [ltS_small (by omega) (by omega)]
-      simp only [hlt, decide_true, if_true, hnbit]
-      rw [Slim.memIncr.go]
-      generalize hnb : Bits.popcount short = nbit
-      have hused : ith.toList.getD nbit 0 = ith.getD nbit 0 := array_getD_toList _ _ _
-      have hub := hith nbit
-      generalize hu : ith.getD nbit 0 = used at hub
-      have hrow : (natSorted sorted).getD nbit [] = sorted.getD nbit [] := array_getD_toList _ _ _
-      rw [hused, hu, hrow]
-      generalize hr : sorted.getD nbit [] = row
-      have hrowok : row.length < 2 ^ 31 ∧ ∀ e ∈ row, e.2 < 2 ^ 31 := by
-        rw [← hr, Array.getD_eq_getD_getElem?]
-        cases hg : sorted[nbit]? with
-        | none => simp
-        | some l => exact hok l (by rw [Array.mem_toList_iff]; exact Array.mem_of_getElem? hg)
-      have hlen : Go.conv 64 true 32 row.length = row.length := by go_simp; omega
-      rw [hlen, ltS_small (by omega) (by omega)]
-      cases hg : row[used]? with
-      | none =>
-        have : ¬ used < row.length := by
-          intro h; rw [List.getElem?_eq_getElem h] at hg; cases hg
-        simp only [this, decide_false, Bool.false_eq_true, if_false]
-        rw [add_small (by omega)]
-        exact ih k (short + 1) ith mem sc (by omega) (by omega) (fun j => by have := hith j; omega)
-      | some e =>
-        obtain ⟨bm, cnt⟩ := e
-        have hul : used < row.length := (List.getElem?_eq_some_iff.mp hg).1
-        have hcnt : cnt < 2 ^ 31 := hrowok.2 (bm, cnt) (List.mem_of_getElem? hg)
-        have hgd : row.getD used (0, 0) = (bm, cnt) := by
-          rw [List.getD_eq_getElem?_getD, hg]; rfl
-        simp only [hul, decide_true, if_true, hgd]
-        rw [add_small (show short + 1 < 2 ^ 32 by omega), add_small (show used + 1 < 2 ^ 32 by omega)]
-        -- the memory update, in the ring of residues
-        have hmem : Go.sub 32 (Go.ofS 32 mem) (Go.mul 32 (Go.sub 32 17 ss) cnt)
-            = Go.ofS 32 (mem - ((Slim.innerSize : Int) - ss) * cnt) := by
-          conv => lhs; rw [ofS_eq_natCast (w := 32) (n := 17) (by omega),
-            ofS_eq_natCast (w := 32) (n := ss) (by omega), ofS_eq_natCast (w := 32) (n := cnt) (by omega)]
-          rw [sub_ofS, mul_ofS, sub_ofS]
-          rfl
-        rw [hmem]
-        have hmod : ith.toList.set nbit (used + 1) = (ith.modify nbit (· + 1)).toList := by
-          rw [Array.toList_modify, List.modify_eq_set, Array.getElem?_toList,
-            ← Array.getD_eq_getD_getElem?]
-          show _ = ith.toList.set nbit (ith.getD nbit 0 + 1)
-          rw [hu]
-        rw [hmod]
-        exact ih k (short + 1) _ _ _ (by omega) (by omega) (fun j => by
-          rw [Array.getD_eq_getD_getElem?, Array.getElem?_modify]
-          have := hith j
-          rw [Array.getD_eq_getD_getElem?] at this
-          split
-          · next hj =>
-            subst hj
-            rw [Array.getD_eq_getD_getElem?] at hu
-            cases hq : ith[nbit]? with
-            | none => simp
-            | some v => rw [hq] at hu this; simp at hu this ⊢; omega
-          · omega)
-
-theorem memIncr_pat (sorted : Array (List (Nat × Nat))) (hok : SortedOK sorted) (ss : Nat) (hss : ss ≤ 30) :
-    (Generated.memIncrOfShortSize_pat (natSorted sorted) ss).1 = Go.ofS 32 (Slim.memIncr sorted ss) := by
-  have h2 : 2 ^ ss ≤ 2 ^ 30 := Nat.pow_le_pow_right (by omega) hss
-  unfold Generated.memIncrOfShortSize_pat Slim.memIncr
-  have hshl : Go.shl 32 1 (Go.conv 32 true 64 ss) = 2 ^ ss := by
-    go_simp
-    simp
-  have hmem : Go.mul 32 (2 ^ ss) 64 = Go.ofS 32 (((2 ^ ss : Nat) : Int) * 64) := by
-    conv => lhs; rw [ofS_eq_natCast (w := 32) (n := 2 ^ ss) (by omega),
-      ofS_eq_natCast (w := 32) (n := 64) (by omega)]
-    rw [mul_ofS]
-    rfl
-  have hrep : List.replicate (Go.add 32 ss 1) 0 = (Array.replicate (ss + 1) 0).toList := by
-    rw [add_small (by omega), Array.toList_replicate]
-  simp only [hshl, hmem, hrep]
-  exact memLoop_spec sorted hok ss hss (2 ^ ss) (2 ^ ss) 0 _ _ 0 (by omega) (Nat.le_refl _)
-    (by intro j; simp [Array.getD_eq_getD_getElem?, Array.getElem?_replicate]; split <;> simp)
-
-/-- the int32 range -/
-def InI32 (x : Int) : Prop := -(2 : Int) ^ 31 ≤ x ∧ x < (2 : Int) ^ 31
-
-/-- **`memIncrOfShortSize`** (first result) is `Slim.memIncr`, whenever the result fits an int32
-    (intermediate wrap-around is harmless); counts and list lengths are non-negative int32s. -/
-theorem memIncrOfShortSize_sem (sorted : Array (List (Nat × Nat))) (hok : SortedOK sorted) (ss : Nat)
-    (hss : ss ≤ 30) (hr : InI32 (Slim.memIncr sorted ss)) :
-    (Generated.memIncrOfShortSize (natSorted sorted) ss).1 = Slim.memIncr sorted ss := by
-  unfold Generated.memIncrOfShortSize
-  simp only
-  rw [memIncr_pat sorted hok ss hss, toS_ofS (by omega) (by simpa using hr.1) (by simpa using hr.2)]
-
-theorem findLoop_spec (sorted : Array (List (Nat × Nat))) (hok : SortedOK sorted)
-    (hr : ∀ ss, ss ≤ 10 → InI32 (Slim.memIncr sorted ss)) :
-    ∀ fuel k ss sz (minCost : Int) (sc : Nat), ss + k = 11 → k ≤ fuel → sz < ss → InI32 minCost →
-      (Generated.findMinShortSize_loop1 (natSorted sorted) fuel (Go.ofS 32 minCost, sc, ss, sz)).2.2.2
-        = Slim.findMinShortSize.go sorted k ss sz minCost ∧
-      (Generated.findMinShortSize_loop1 (natSorted sorted) fuel (Go.ofS 32 minCost, sc, ss, sz)).2.2.2 ≤ 10 := by
-  intro fuel
-  induction fuel with
-  | zero =>
-    intro k ss sz minCost sc h1 hk hsz _
-    have : k = 0 := by omega
-    subst this
-    simp only [Generated.findMinShortSize_loop1, Slim.findMinShortSize.go]
-    refine ⟨?_, ?_⟩ <;> first | rfl | trivial | omega
-  | succ fuel ih =>
-    intro k ss sz minCost sc h1 hk hsz hmc
-    rw [Generated.findMinShortSize_loop1]
-    cases k with
-    | zero =>
-      have : ¬ ss < 11 := by omega
-      rw [ltS_small (by omega) (by omega)]
-      simp only [this, decide_false, Bool.false_eq_true, if_false, Slim.findMinShortSize.go]
-      refine ⟨?_, ?_⟩ <;> first | rfl | trivial | omega
-    | succ k =>
-      have hlt : ss < 11 := by omega
-      have hinc := hr ss (by omega)
-      rw [ltS_small (by omega) (by omega)]
-      simp only [hlt, decide_true, if_true]
-      rw [memIncr_pat sorted hok ss (by omega), add_small (show ss + 1 < 2 ^ 32 by omega),
-        Slim.findMinShortSize.go]
-      have hcmp : Go.ltS 32 (Go.ofS 32 (Slim.memIncr sorted ss)) (Go.ofS 32 minCost)
-          = decide (Slim.memIncr sorted ss < minCost) := by
-        unfold Go.ltS
-        rw [toS_ofS (by omega) (by simpa using hinc.1) (by simpa using hinc.2),
-          toS_ofS (by omega) (by simpa using hmc.1) (by simpa using hmc.2)]
-      rw [hcmp]
-      by_cases hc : Slim.memIncr sorted ss < minCost
-      · simp only [hc, decide_true, if_true]
-        exact ih k (ss + 1) ss _ _ (by omega) (by omega) (by omega) hinc
-      · simp only [hc, decide_false, Bool.false_eq_true, if_false]
-        exact ih k (ss + 1) sz _ _ (by omega) (by omega) (by omega) hmc
-
-/-- **`findMinShortSize`** (first result: the short bitmap size) is `Slim.findMinShortSize`, for
-    tables of non-negative int32 counts on which every candidate's memory delta fits an int32. -/
-theorem findMinShortSize_sem (sorted : Array (List (Nat × Nat))) (hok : SortedOK sorted)
-    (hr : ∀ ss, ss ≤ 10 → InI32 (Slim.memIncr sorted ss)) :
-    (Generated.findMinShortSize (natSorted sorted)).1 = ((Slim.findMinShortSize sorted : Nat) : Int) := by
-  have hmax : Slim.maxShortSize = 10 := rfl
-  have hm := memIncr_pat sorted hok 0 (by omega)
-  unfold Generated.findMinShortSize Slim.findMinShortSize
-  rw [hmax]
-  obtain ⟨h1, h2⟩ := findLoop_spec sorted hok hr 11 10 1 0 (Slim.memIncr sorted 0)
-    (Generated.memIncrOfShortSize_pat (natSorted sorted) 0).2
-    (by omega) (by omega) (by omega) (hr 0 (by omega))
-  generalize Slim.findMinShortSize.go sorted 10 1 0 (Slim.memIncr sorted 0) = g at h1 ⊢
-  generalize hf : (11 : Nat) = fuel at h1 h2 ⊢
-  generalize Generated.memIncrOfShortSize_pat (natSorted sorted) 0 = m at hm h1 h2 ⊢
-  obtain ⟨mc, sc⟩ := m
-  have hm' : mc = Go.ofS 32 (Slim.memIncr sorted 0) := hm
-  subst hm'
-  have h1' : (Generated.findMinShortSize_loop1 (natSorted sorted) fuel
-      (Go.ofS 32 (Slim.memIncr sorted 0), sc, 1, 0)).2.2.2 = g := h1
-  have h2' : (Generated.findMinShortSize_loop1 (natSorted sorted) fuel
-      (Go.ofS 32 (Slim.memIncr sorted 0), sc, 1, 0)).2.2.2 ≤ 10 := h2
-  show (match Generated.findMinShortSize_loop1 (natSorted sorted) fuel
-      (Go.ofS 32 (Slim.memIncr sorted 0), sc, 1, 0) with
-    | (_, shortCnt, _, sz) => (Go.toS 32 sz, Go.toS 32 shortCnt)).1 = (g : Int)
-  generalize Generated.findMinShortSize_loop1 (natSorted sorted) fuel
-    (Go.ofS 32 (Slim.memIncr sorted 0), sc, 1, 0) = res at h1' h2' ⊢
-  obtain ⟨a, b, c, d⟩ := res
-  show Go.toS 32 d = (g : Int)
-  have h1'' : d = g := h1'
-  have h2'' : d ≤ 10 := h2'
-  rw [toS_small (by omega), h1'']
-
-end BridgeSem
-
-#print axioms BridgeSem.encStep_sem
-#print axioms BridgeSem.decStep_sem
-#print axioms BridgeSem.decStep_encStep_iff
-#print axioms BridgeSem.getLabelIdxOfKey_sem
-#print axioms BridgeSem.getI8_sem
-#print axioms BridgeSem.getI16_sem
-#print axioms BridgeSem.getI32_sem
-#print axioms BridgeSem.getI64_sem
-#print axioms BridgeSem.getI16Index_sem
-#print axioms BridgeSem.getI32Index_sem
-#print axioms BridgeSem.getI64Index_sem
-#print axioms BridgeSem.encSizes_sem
-#print axioms BridgeSem.encSizes_model
-#print axioms BridgeSem.normalizeOpt_sem
-#print axioms BridgeSem.bigInnerOffset_sem
-#print axioms BridgeSem.shortMinusInner_sem
-#print axioms BridgeSem.innerFromBig_sem
-#print axioms BridgeSem.innerFromSmall_sem
-#print axioms BridgeSem.innerFrom_offset_sem
-#print axioms BridgeSem.getLeafIndex_sem
-#print axioms BridgeSem.newToKeep_sem
-#print axioms BridgeSem.stepToPos_sem
-#print axioms BridgeSem.memIncrOfShortSize_sem
-#print axioms BridgeSem.findMinShortSize_sem
